@@ -1,9 +1,22 @@
+import contextlib
 import functools
 
 import numpy as np
 import tensorflow as tf
 
 from tf_pwa.data import LazyCall, data_split
+
+
+@contextlib.contextmanager
+def _keep_used_chains(amp):
+    """restore the caller's selection of decay chains (also on exceptions)"""
+    decay_group = getattr(amp, "decay_group", None)
+    old_idx = None if decay_group is None else list(decay_group.chains_idx)
+    try:
+        yield
+    finally:
+        if old_idx is not None:
+            amp.set_used_chains(old_idx)
 
 
 def eval_integral(
@@ -56,7 +69,11 @@ class FitFractions:
             for data_i in data_split(mcdata, batch):
                 self.append_int(data_i, *args, no_grad=no_grad, **kwargs)
 
-    def append_int(self, mcdata, *args, weight=None, no_grad=False, **kwargs):
+    def append_int(self, mcdata, *args, **kwargs):
+        with _keep_used_chains(self.amp):
+            return self._append_int(mcdata, *args, **kwargs)
+
+    def _append_int(self, mcdata, *args, weight=None, no_grad=False, **kwargs):
         # print(data, data_shape(data))
         if isinstance(mcdata, LazyCall):
             mcdata = mcdata.eval()
@@ -176,6 +193,15 @@ def nll_grad(f, var, args=(), kwargs=None, options=None):
 
 
 def cal_fitfractions(amp, mcdata, res=None, batch=None, args=(), kwargs=None):
+    with _keep_used_chains(amp):
+        return _cal_fitfractions(
+            amp, mcdata, res=res, batch=batch, args=args, kwargs=kwargs
+        )
+
+
+def _cal_fitfractions(
+    amp, mcdata, res=None, batch=None, args=(), kwargs=None
+):
     r"""
     defination:
 
@@ -259,6 +285,15 @@ def cal_fitfractions(amp, mcdata, res=None, batch=None, args=(), kwargs=None):
 
 
 def cal_fitfractions_no_grad(
+    amp, mcdata, res=None, batch=None, args=(), kwargs=None
+):
+    with _keep_used_chains(amp):
+        return _cal_fitfractions_no_grad(
+            amp, mcdata, res=res, batch=batch, args=args, kwargs=kwargs
+        )
+
+
+def _cal_fitfractions_no_grad(
     amp, mcdata, res=None, batch=None, args=(), kwargs=None
 ):
     r"""
